@@ -1,5 +1,7 @@
 import ObiVerif.Model.Uniq
 import ObiVerif.Model.UniqLoop
+import ObiVerif.Model.UniqChunk
+import ObiVerif.Model.UniqSteps
 import ObiVerif.Driver.Util
 /-!
 line protocol for C06
@@ -17,6 +19,19 @@ The model ignores mode, workers and batch size (the theorems say the result does
 
 `dispatch c=<chunks> b=<batch size> <rec> …` → `disp <code>:<n> …`: the chunk files of the on-disk mode (hash code,
 number of records), by increasing code.
+
+`dist c=<chunks> b=<input batch size> s=<batch size of Distribute> <rec> …` → `T <n> <code>:<ids>|<ids>… …`: the batches
+every output of `Distribute(HashClassifier(chunks), s)` delivers, by increasing code (loop-level model `distribute`).
+
+`chunk <mem|disk> c=<chunks> b=<input batch size> s=<CLIBatchSize> <rec> …` → `K <n> <code>:<ids> …`: the chunks
+`ISequenceChunk` (by increasing code: the code pushes them in map order) / `ISequenceChunkOnDisk` (in the order they
+are pushed = lexical order of the file names) deliver.  `chunk diskfail …` → `err` (no temporary directory).
+
+`pipe c=<chunks> w=<workers> sched=<n,n,…|-> ns= na= cats= stats= <rec> …` → `U …`: the small-step model of the
+goroutines of `IUniqueSequence` (`Model/UniqSteps.lean`) run under the schedule `sched` (which worker / pusher moves
+next; exhausted schedule: round robin), result of the merge stage.
+
+`big …`: large generated inputs, see `bigRun`.
 -/
 namespace ObiVerif.Driver.C06
 open ObiVerif.Uniq ObiVerif.Driver
@@ -94,6 +109,45 @@ def showCode : Code → String
   | .s q => hex q
   | .v x => hexS x
 
+/-- the input iterator of the harness: consecutive batches of `bs` records -/
+def batchesOf (bs : Nat) (l : List Rec) : List (List Rec) :=
+  if bs = 0 then [l] else
+  (List.range ((l.length + bs - 1) / bs)).map fun i => (l.drop (i * bs)).take bs
+
+def showIds (l : List Rec) : String := showList (l.map fun r => hexS r.id)
+
+/-- `big kind=<few|distinct|skew> n=<N> k=<K>`: the harness generates N records from the spec (record i: sequence
+number `bigClass kind K i`, count `1 + i % 3`), runs the real obiuniq on them and recounts with Go maps; the result
+line is `big classes=<c> total=<t> max=<m>` (number of output records, total count, largest count).  At this size
+the list model is not executed: the driver recomputes the three numbers from the spec with array counters (the
+same class function), so these cases tie the *scale* behaviour of the code to the count-conservation statement,
+not the whole model. -/
+def bigClass (kind : String) (k i : Nat) : Nat :=
+  if kind = "few" then i % k
+  else if kind = "distinct" then i
+  else -- skew: half of the records in class 0, a quarter in class 1, …, the tail spread over k classes
+    let j := (i * 2654435761) % 4294967296
+    if j % 2 = 0 then 0 else if j % 4 = 1 then 1 else if j % 8 = 3 then 2 else 3 + (j / 8) % k
+
+def bigRun (ws : List String) : String :=
+  let r : Option String := do
+    match ws with
+    | [_mode, _c, _w, _b, kind, n, k] =>
+      let kind ← field "kind=" kind
+      let n ← (← field "n=" n).toNat?
+      let k ← (← field "k=" k).toNat?
+      if k = 0 ∨ ¬ (kind = "few" ∨ kind = "distinct" ∨ kind = "skew") then none
+      let size := if kind = "distinct" then n else k + 3
+      let arr := (List.range n).foldl (fun (a : Array Nat) i =>
+        let c := bigClass kind k i
+        a.modify c (· + (1 + i % 3))) (Array.replicate size 0)
+      let classes := arr.foldl (fun acc x => if x > 0 then acc + 1 else acc) 0
+      let total := arr.foldl (· + ·) 0
+      let mx := arr.foldl max 0
+      pure s!"big classes={classes} total={total} max={mx}"
+    | _ => none
+  r.getD "bad-op"
+
 def run (line : String) : String :=
   match words line with
   | "uniq" :: mode :: c :: w :: b :: ns :: na :: cats :: stats :: dm :: recs =>
@@ -159,6 +213,57 @@ def run (line : String) : String :=
       let cs := cs.mergeSort (fun a b => decide (a.1 ≤ b.1))
       pure (joinSp ("disp" :: cs.map fun e => s!"{e.1}:{e.2}"))
     r.getD "bad-op"
+  | "dist" :: c :: b :: sz :: recs =>
+    let r : Option String := do
+      let chunks ← (← field "c=" c).toNat?
+      let bs ← (← field "b=" b).toNat?
+      let size ← (← field "s=" sz).toNat?
+      let input ← recs.mapM parseRec
+      if chunks = 0 ∨ bs = 0 then none
+      let d := distribute (hashRec chunks) size (batchesOf bs input)
+      let d := d.mergeSort (fun a b => decide (a.1 ≤ b.1))
+      pure (joinSp ("T" :: toString d.length :: d.map fun e =>
+        s!"{e.1}:{"|".intercalate (e.2.map showIds)}"))
+    r.getD "bad-op"
+  | "chunk" :: mode :: c :: b :: sz :: recs =>
+    let r : Option String := do
+      let chunks ← (← field "c=" c).toNat?
+      let bs ← (← field "b=" b).toNat?
+      let size ← (← field "s=" sz).toNat?
+      let input ← recs.mapM parseRec
+      if chunks = 0 ∨ bs = 0 then none
+      let batches := batchesOf bs input
+      let showK (cs : List (Nat × List Rec)) : String :=
+        joinSp ("K" :: toString cs.length :: cs.map fun e => s!"{e.1}:{showIds e.2}")
+      if mode = "mem" then
+        pure (showK ((chunkMem (hashRec chunks) size batches).mergeSort (fun a b => decide (a.1 ≤ b.1))))
+      else if mode = "disk" ∨ mode = "diskfail" then
+        match chunkDisk idLayer (mode = "disk") (hashRec chunks) size batches with
+        | .ok cs => pure (showK cs)
+        | .error e => pure e
+      else none
+    r.getD "bad-op"
+  | "pipe" :: c :: w :: sched :: ns :: na :: cats :: stats :: recs =>
+    let r : Option String := do
+      let chunks ← (← field "c=" c).toNat?
+      let workers ← (← field "w=" w).toNat?
+      let sch ← field "sched=" sched
+      let sch ← if sch = "-" then some [] else (sch.splitOn ",").mapM (·.toNat?)
+      let ns ← (← field "ns=" ns).toNat?
+      let na ← unhexS (← field "na=" na)
+      let cats ← listOf (← field "cats=" cats)
+      let stats ← listOf (← field "stats=" stats)
+      let input ← recs.mapM parseRec
+      if chunks = 0 ∨ workers = 0 then none
+      if ¬ stats.Nodup then none
+      let o : Opts := { cats := cats, stats := stats, na := na, noSingleton := ns ≠ 0 }
+      let cs := (chunkMem (hashRec chunks) 0 [input]).map (·.2)
+      let fin := Pipe.runSched sortMerge o sch (sch.length + 4 * (input.length + workers) + 8) (Pipe.init cs workers)
+      let s1 := showRecs "U" stats (uniqCRC chunks o input)
+      let s2 := showRecs "U" stats (Pipe.result o fin)
+      pure (if Pipe.final fin ∧ s1 = s2 then s2 else s2 ++ " PIPE-DIFFERS")
+    r.getD "bad-op"
+  | "big" :: rest => bigRun rest
   | _ => "bad-op"
 
 end ObiVerif.Driver.C06
